@@ -93,6 +93,7 @@ func checkFlow(p flowParams, x *verifkit.Exec) []verifkit.Violation {
 	forceRet, stopwaitNil, stopRet := -1, -1, -1
 	statusAtForce := ""
 	runEndedBeforeForce := false
+	failuresInRun := 0
 	teardownSeq := map[string]int{}
 	for _, e := range a.evs {
 		switch {
@@ -133,6 +134,7 @@ func checkFlow(p flowParams, x *verifkit.Exec) []verifkit.Violation {
 		case isSource(e.Comp) && e.Kind == "open":
 			epoch[e.Comp]++
 			opens[e.Comp]++
+			failuresInRun = 0
 			for d := range recvOrder {
 				recvOrder[d][e.Comp] = nil
 			}
@@ -167,6 +169,8 @@ func checkFlow(p flowParams, x *verifkit.Exec) []verifkit.Violation {
 			}
 		case (isSource(e.Comp) || isDest(e.Comp) || e.Comp == "dlq") && e.Kind == "open":
 			opens[e.Comp]++
+		case e.Kind == "openfail" || e.Kind == "runerr" || e.Kind == "readerr":
+			failuresInRun++
 		case e.Kind == "teardown" && e.Arg == "":
 			teardowns[e.Comp]++
 			teardownSeq[e.Comp] = e.Seq
@@ -242,6 +246,9 @@ func checkFlow(p flowParams, x *verifkit.Exec) []verifkit.Violation {
 				if n > 0 && teardowns[c] >= n {
 					runEndedBeforeForce = true // a connector of the current run is already torn down: the run is ending on its own
 				}
+			}
+			if failuresInRun > 0 {
+				runEndedBeforeForce = true // a connector failed to open / its stream failed: the run is ending on its own
 			}
 			if len(statuses) > 0 {
 				statusAtForce = statuses[len(statuses)-1]
@@ -346,7 +353,7 @@ func (p flowParams) healthy() bool {
 		}
 		return true
 	}
-	return only(p.AckMenu) && only(p.DLQMenu) && only(p.ReadMenu) && !p.Faults && len(p.Blocked) == 0 && !p.GateDestOpen
+	return only(p.AckMenu) && only(p.DLQMenu) && only(p.ReadMenu) && !p.Faults && len(p.Blocked) == 0 && !p.GateDestOpen && !p.GateDLQOpen
 }
 
 func (a *analysis) checkDrained(when string, at int, epoch map[string]int, emitted, acked map[epKey][]int,
